@@ -3,6 +3,7 @@ package main
 // One Run = one execution of a harness entry under one decision vector (DESIGN 2.2).
 
 import (
+	"strconv"
 	"fmt"
 	"os"
 	"math/big"
@@ -29,6 +30,7 @@ type NondetInfo struct {
 	Sort   string
 	Lo, Hi string
 	term   *Term
+	atom   bool // an atom string: its model value is translated back to text where it equals a known string
 }
 
 type Violation struct {
@@ -36,6 +38,7 @@ type Violation struct {
 	Msg    string
 	Pos    string
 	Sig    string
+	Native string // outcome of the native replay, when the entry supports one
 	Model  map[string]string
 	Trace  []Decision
 	Confirmed bool
@@ -273,6 +276,9 @@ func (r *Run) nondetName(label string) string {
 	return fmt.Sprintf("%s#%d", label, n)
 }
 
+// nondetUnname undoes the counter step of a nondetName call (the name was only peeked at).
+func (r *Run) nondetUnname(label string) { r.nondetN[label]-- }
+
 func (r *Run) newNondet(label string, s Sort, lo, hi *big.Int) *Term {
 	name := r.nondetName(label)
 	if r.concrete != nil {
@@ -379,6 +385,13 @@ func (r *Run) assert(cond value, msg string, pos string) {
 			m[n.Name] = n.term.ival.String()
 		} else if v, ok := model[n.term.name]; ok {
 			m[n.Name] = v
+			if n.atom {
+				if id, err := strconv.ParseInt(v, 10, 64); err == nil {
+					if str, known := r.tc.strByID[id]; known {
+						m[n.Name] = "=" + str // the atom equals a concrete string of the run
+					}
+				}
+			}
 		}
 	}
 	r.viol = &Violation{Kind: "assert", Msg: msg, Pos: pos, Sig: r.sigOf("assert", msg), Model: m, Trace: append([]Decision{}, r.trace...)}
@@ -421,6 +434,13 @@ func (r *Run) modelSample() map[string]string {
 			m[n.Name] = n.term.ival.String()
 		} else if v, ok := model[n.term.name]; ok {
 			m[n.Name] = v
+			if n.atom {
+				if id, err := strconv.ParseInt(v, 10, 64); err == nil {
+					if str, known := r.tc.strByID[id]; known {
+						m[n.Name] = "=" + str // the atom equals a concrete string of the run
+					}
+				}
+			}
 		}
 	}
 	return m
